@@ -52,6 +52,10 @@ WCase(p) ==
                   [op |-> "tags", it |-> 4], [op |-> "nth", it |-> 4, n |-> 7], [op |-> "next", it |-> 4], [op |-> "count", it |-> 4]>>
              \o Rep([op |-> "next", it |-> 0], n)
              \o Rep([op |-> "next", it |-> 1], n)
-             \o <<[op |-> "module_tags", it |-> 2]>> \o Rep([op |-> "next", it |-> 2], n),
+             \o <<[op |-> "module_tags", it |-> 2]>> \o Rep([op |-> "next", it |-> 2], n)
+             \* a second load must change nothing: iterators made before stay valid, new ones start afresh; clone of a clone
+             \o <<[op |-> "tags", it |-> 5], [op |-> "next", it |-> 5], [op |-> "load"], [op |-> "next", it |-> 5],
+                  [op |-> "clone", it |-> 5, to |-> 6], [op |-> "clone", it |-> 6, to |-> 7], [op |-> "next", it |-> 7],
+                  [op |-> "next", it |-> 5], [op |-> "tags", it |-> 8], [op |-> "next", it |-> 8]>>,
    desc |-> [area |-> "walk", T |-> p.T, hs |-> p.hs]]
 =============================================================================
